@@ -14,7 +14,7 @@ namespace PdtVerif.Checkpoint
 /-! ## history row first -/
 
 theorem plan_infoFirst {P : Params} {vals : List (Option Int)} {k : Nat} {d : Disk}
-    (hr : refuses P vals k = false) (hif : infoFirst Quirks.fixed P vals k d = true) (s : Nat × Nat) :
+    (hr : refuses P vals k = false) (hif : infoFirst Quirks.fixed P vals k d = true) (s : St) :
     planUpdate Quirks.fixed P vals k d s =
       .ok (histOps Quirks.fixed d (k + 1) ++ saveOps P d (k + 1) s, cleanSet P vals k d) := by
   simp [planUpdate, mainOps, hr, hif]
@@ -25,7 +25,7 @@ under its names are what they were: unless they already hold the state to be sav
 started now does not get the parameters of the epoch it believes to be the last. -/
 theorem c16_infofirst_window {P : Params} {vals : List (Option Int)} {tr : Train} {d : Disk} {k : Nat}
     (hrec : RecAt P vals tr d k) (hne : loadState P d (k + 1) ≠ some (U tr (k + 1)))
-    (s : Nat × Nat) (cl : List Path) :
+    (s : St) (cl : List Path) :
     ¬ Rec P vals tr (exec d ((opsOf (histOps Quirks.fixed d (k + 1) ++ saveOps P d (k + 1) s) cl).take
       (histOps Quirks.fixed d (k + 1)).length)) := by
   intro hr
@@ -143,7 +143,7 @@ checkpoint-first update of ANY recoverable disk the call with index `8 + histOps
 the write of the data row, and when it stops half-way every later controller raises while reading
 the history (`recorded = none`), although both checkpoints are in place. -/
 theorem c16_torn_row {P : Params} {vals : List (Option Int)} {tr : Train} {d : Disk} {k : Nat}
-    (hrec : RecAt P vals tr d k) (s : Nat × Nat) (cl : List Path) :
+    (hrec : RecAt P vals tr d k) (s : St) (cl : List Path) :
     (opsOf (saveOps P d (k + 1) s ++ histOps Quirks.fixed d (k + 1)) cl)[8 +
         (histOps Quirks.fixed d (k + 1)).length - 1]? = some (.hwrite (.row (k + 1))) ∧
     recorded (tornDisk tear d (opsOf (saveOps P d (k + 1) s ++ histOps Quirks.fixed d (k + 1)) cl)
